@@ -40,6 +40,8 @@ def c08_runs(tier):
     # ---- one deviation on named histories (ring fast path, steal ring, central queue; grow, shrink, to zero)
     for n, h in ((1, 'kr1Z'), (1, 'kdZ'), (1, 'b2Z'), (2, 'kr2z1'), (2, 'kC2z1'), (2, 'L2z0z1')):
         add(n, h, bound=1, budget=120)
+    if quick:
+        add(1, 'XZ', bound=1, budget=120)        # last: the whole n=1 family with one deviation (~14k executions)
     if not quick:
         for n, h in ((2, 'XZX'), (1, 'kXZkXZ'), (1, 'XwZX'), (0, 'XZX'), (2, 'XpX'), (2, 'kXz1X'), (1, 'XZXZ')):
             add(n, h, budget=400)
